@@ -25,7 +25,7 @@ DEV_INVARIANT = {"D_nsec3_label_expect": "NoPanic", "D_ttl0_node_panic": "NoPani
 
 META = {
     "category": "model_checking",
-    "text": "SCENARIO-LEVEL check. Validator.tla models the validator's walk (per RRset group: fetch DNSKEY/DS, verify, descend, cache; then classify positive / wildcard / NODATA / NXDOMAIN / CNAME and DNAME chains / DS) with one adversary action per rewrite kind (25, incl. ShortSig: honest signatures with seconds of validity left; AddCollidingKey / AddExtraDs: an honest zone with two keys of equal tag in both orders, two DS records one matching; CorruptSigOctets; HideCe: NSEC3 closest-encloser record withheld below an existing name; ReplayAncestor: genuine signed NSEC/NSEC3 of a DNAME owner / zone cut replayed as NXDOMAIN or NODATA proof for a name below it, and AddBadSig(n, position): extra non-verifying RRSIGs within / beyond the max_bad_signatures tolerance on answer, DS and DNSKEY RRsets) applied to any message on the wire, next to a declarative RFC 4035 s.5 oracle (ChainO/AnswerO over the messages as served, symbolic signatures). TLC checks Soundness, HonestSecure, InsecureNotBogus, WithinAllowed, CacheTransparent, NoPanic, Terminates; sequences of 2 (thorough: 3) validations of one question on ONE context with rewrites in every run (node cache in the model; signature / NSEC3-hash caches must be invisible) are explored and replayed on one real ValidationContext, including TimePasses between runs (clock_gettime interposed in the executor: nodes built from short-lived signatures must expire and be re-fetched) and Resalt (second NSEC3 parameter set; the NSEC3-hash cache must be invisible); exhaustively over 8 hierarchy shapes (incl. the leaf zone delegated below an empty non-terminal that sorts directly after the parent apex / after an ordinary name, secure and insecure) x 3 denial flavours x 10 query kinds (incl. NXDOMAIN two labels below the apex under an existing name, DNAME in the zone and DNAME in an insecure sibling zone pointing into the secure zone) x every single rewrite (quick, 16k scenarios + 6k forged-key pairs) / every pair of rewrites on different messages (thorough). Every scenario is then performed against the real validator: hierarchy signed with the library's signer and real ECDSA P-256 keys around the current time, NSEC/NSEC3/opt-out chains from the library's generators, mock upstream applying the rewrites; ValidationContext::validate_msg's state is compared with the specification, and net::client::validator::Connection's SERVFAIL / AD bit / stripping of DNSSEC records with ValidatorConn.tla's ConnView for all 8 request flag combinations CD x AD x DO (upstream answers carry AD) on a sub-grid, DO-only elsewhere. The real validator's upstream fetch sequences are recorded and validated by TLC against the machine (Trace_Validator.tla). WILDCARD FAMILY (RFC 4035 5.3.4, RFC 4592 3.3.1, RFC 5155 8.8; MC_Validator_wild, thorough MC_Validator_ext): every RRset group carries the closest encloser, in labels below the apex, that its RRSIG labels field implies (expanded wildcard) or that the denial establishes (NSEC: longest suffix shared with owner / next name; NSEC3: parent of the covered name); the machine's check_not_exists_for_wildcard step and the oracle's WildOk demand equality. Honest kinds: expansion over one label, over two labels (wilddeep), an inner wildcard *.i.wild below the outer one (wildsub: labels field = apex + 2), wildcard CNAME, wildcard NODATA. Adversary Adv_MisapplyWildcard replays the genuine *.wild RRset and RRSIG with the genuine denial of the name where a closer encloser exists: Below an existing name (encloser via the NSEC owner), BelowEnt (below an empty non-terminal: via the NSEC next name), BelowDeep (two labels below), Outer (where the inner wildcard applies), At (an existing name without the type), CnameBelow (wildcard CNAME heading a chain) - x 3 denial flavours x 3 shapes; also Adv_DenyExisting, SigsFirst, Duplicate, OrphanSig, WrongSoa. Three seeded mutants of the specification's wildcard rule (deeper encloser accepted / encloser not compared / full name taken for the next closer name) must each break Soundness or HonestSecure in TLC. TRUST ANCHOR ROUTES (DS / DNSKEY form, from_u8 / add_u8 / from_reader, several anchors, root+tld longest match, none / elsewhere => Indeterminate) and CONFIG ROUTES (Config::new, every setter at its default, smallest caches, bad_signatures 2, max_cname_dname 1, nsec3_iter_insecure / nsec3_iter_bogus 0) are grids of their own. DIFFERENT QUESTIONS IN A ROW on one context (OtherQuestion: every ordered pair of 11 query kinds, rewrites of either answer) and TimePasses over the shapes with the leaf zone below an empty non-terminal (finding D_ent_node_as_signer).",
+    "text": "SCENARIO-LEVEL check. Validator.tla models the validator's walk (per RRset group: fetch DNSKEY/DS, verify, descend, cache; then classify positive / wildcard / NODATA / NXDOMAIN / CNAME and DNAME chains / DS) with one adversary action per rewrite kind (25, incl. ShortSig: honest signatures with seconds of validity left; AddCollidingKey / AddExtraDs: an honest zone with two keys of equal tag in both orders, two DS records one matching; CorruptSigOctets; HideCe: NSEC3 closest-encloser record withheld below an existing name; ReplayAncestor: genuine signed NSEC/NSEC3 of a DNAME owner / zone cut replayed as NXDOMAIN or NODATA proof for a name below it, and AddBadSig(n, position): extra non-verifying RRSIGs within / beyond the max_bad_signatures tolerance on answer, DS and DNSKEY RRsets) applied to any message on the wire, next to a declarative RFC 4035 s.5 oracle (ChainO/AnswerO over the messages as served, symbolic signatures). TLC checks Soundness, HonestSecure, InsecureNotBogus, WithinAllowed, CacheTransparent, NoPanic, Terminates; sequences of 2 (thorough: 3) validations of one question on ONE context with rewrites in every run (node cache in the model; signature / NSEC3-hash caches must be invisible) are explored and replayed on one real ValidationContext, including TimePasses between runs (clock_gettime interposed in the executor: nodes built from short-lived signatures must expire and be re-fetched) and Resalt (second NSEC3 parameter set; the NSEC3-hash cache must be invisible); exhaustively over 8 hierarchy shapes (incl. the leaf zone delegated below an empty non-terminal that sorts directly after the parent apex / after an ordinary name, secure and insecure) x 3 denial flavours x 10 query kinds (incl. NXDOMAIN two labels below the apex under an existing name, DNAME in the zone and DNAME in an insecure sibling zone pointing into the secure zone) x every single rewrite (quick, 16k scenarios + 6k forged-key pairs) / every pair of rewrites on different messages (thorough). Every scenario is then performed against the real validator: hierarchy signed with the library's signer and real ECDSA P-256 keys around the current time, NSEC/NSEC3/opt-out chains from the library's generators, mock upstream applying the rewrites; ValidationContext::validate_msg's state is compared with the specification, and net::client::validator::Connection's SERVFAIL / AD bit / stripping of DNSSEC records with ValidatorConn.tla's ConnView for all 8 request flag combinations CD x AD x DO (upstream answers carry AD) on a sub-grid, DO-only elsewhere. The real validator's upstream fetch sequences are recorded and validated by TLC against the machine (Trace_Validator.tla). WILDCARD FAMILY (RFC 4035 5.3.4, RFC 4592 3.3.1, RFC 5155 8.8; MC_Validator_wild, thorough MC_Validator_ext): every RRset group carries the closest encloser, in labels below the apex, that its RRSIG labels field implies (expanded wildcard) or that the denial establishes (NSEC: longest suffix shared with owner / next name; NSEC3: parent of the covered name); the machine's check_not_exists_for_wildcard step and the oracle's WildOk demand equality. Honest kinds: expansion over one label, over two labels (wilddeep), an inner wildcard *.i.wild below the outer one (wildsub: labels field = apex + 2), wildcard CNAME, wildcard NODATA. Adversary Adv_MisapplyWildcard replays the genuine *.wild RRset and RRSIG with the genuine denial of the name where a closer encloser exists: Below an existing name (encloser via the NSEC owner), BelowEnt (below an empty non-terminal: via the NSEC next name), BelowDeep (two labels below), Outer (where the inner wildcard applies), At (an existing name without the type), CnameBelow (wildcard CNAME heading a chain) - x 3 denial flavours x 3 shapes; also Adv_DenyExisting, SigsFirst, Duplicate, OrphanSig, WrongSoa. Three seeded mutants of the specification's wildcard rule (deeper encloser accepted / encloser not compared / full name taken for the next closer name) must each break Soundness or HonestSecure in TLC. TRUST ANCHOR ROUTES (DS / DNSKEY form, from_u8 / add_u8 / from_reader, several anchors, root+tld longest match, none / elsewhere => Indeterminate) and CONFIG ROUTES (Config::new, every setter at its default, smallest caches, bad_signatures 2, max_cname_dname 1, nsec3_iter_insecure / nsec3_iter_bogus 0) are grids of their own. DIFFERENT QUESTIONS IN A ROW on one context (OtherQuestion: every ordered pair of 8 (thorough: 11) query kinds, rewrites of either answer) and TimePasses over the shapes with the leaf zone below an empty non-terminal (finding D_ent_node_as_signer).",
     "note": "Shallowest of the twenty checks: a scenario grid, not a proof over all zones/messages. Not covered: more than two composed rewrites; sequences of more than two different questions, and different questions only on shape secure3 in the quick tier; the ENT shapes run with 2-4 query kinds only; RSA/other algorithms; multi-hop DNAME, DNAME below a wildcard; wildcards only below one parent name (wild) plus one inner wildcard - no wildcard at the apex, no wildcard owner with children, no NSEC whose next name alone carries the closest encloser of an HONEST expansion; NSEC bitmaps {NS,DNAME} / DNAME at an apex; the denial helpers that take ValidatedGroup (nsec_for_not_exists etc.) are reached only through validate_msg - driving them directly needs a wider hook (ValidatedGroup constructor); NSEC3 iteration limits only 0 vs default, max_bad_signatures only 1 and 2; key rollovers; node-cache eviction (max_node_cache 1 is run, its fetch sequences are not compared); concurrent validations; message-level malformations other than zeroed counts, RRSIG-first order and duplicated records (C01). Verdicts are compared against the set the property admits (adversary harmless => the oracle's state only; else that or Bogus); the machine's exact verdict match is reported as a statistic. Honest short-lived signatures served before time passes count as harmless (so a Bogus after their expiry is a violation, not an admitted outcome). Trusted: TLC, ring, the harness's authoritative responder (the honest grid must come out Secure/Insecure for the check to pass). Named deviations: D_nsec3_label_expect, D_ttl0_node_panic, D_sigcache_ignores_time repaired; D_extra_rrset_ignored open; D_ent_node_as_signer open (a cached intermediate node of an empty non-terminal is taken for the signer's node: after the node of a zone delegated below an ENT expires, its correctly signed answers are Bogus; proposed_fixes/D_ent_node_as_signer.diff). Signature times are compared in plain u32 order by the code (RFC 4034 3.1.5 demands serial arithmetic): witnessed with inception 0xFFFF0000, judged outside the property text, described in the report only. Needs hook validator_nsec_reexport.diff (H3) for the denial-helper stage; without it that stage is skipped and recorded as such.",
     "technique": "TLA+ spec (Validator.tla: validator walk + adversary actions + declarative oracle) + TLC exhaustive over the scenario grid; spec->impl scenario replay on a really signed hierarchy; impl->spec validation of recorded fetch sequences",
     "design_ref": "DESIGN.md §4 C14",
@@ -96,10 +96,7 @@ def run(ctx):
         if r.violated not in prop.split("|"):
             raise vlib.ToolError("spec mutant %s not caught by %s (violated=%s)" % (mut, prop, r.violated))
         ctx.selftest("spec mutant %s violates %s" % (mut, prop), True)
-    # and without a mutant the same small model is clean
-    r = ctx.tlc("MC_Validator", "MC_Validator_mut", workers=2, label="mutant-none", count=False,
-                coverage=False)
-    ctx.require_ok(r, "MC_Validator_mut")
+    # (without a mutant the same model is clean: it is a sub-grid of mc-wild)
     # 2. S->I: every scenario against the real validator
     gen = mc
     if gen.ncases < 3000:
@@ -143,11 +140,11 @@ def run(ctx):
     xtraces = [wtrace]
     for cfgname in ("anchor", "config", "config_b"):
         xc = os.path.join(ctx.work, cfgname + ".ndjson")
-        full = "MC_Validator_" + cfgname + ("_thorough" if thorough and cfgname != "config_b" else "")
+        full = "MC_Validator_" + cfgname + ("_thorough" if thorough else "")
         xr = ctx.tlc("MC_Validator", full, workers=8, label="mc-" + cfgname, cases_to=xc,
                      coverage=False)
         ctx.require_ok(xr, full)
-        if xr.ncases < 200:
+        if xr.ncases < 60:
             raise vlib.ToolError("too few %s scenarios: %d" % (cfgname, xr.ncases))
         xt = os.path.join(ctx.work, "trace-%s.ndjson" % cfgname)
         rc, outx, errx, wallx = ctx.run_bin("replay_validator",
@@ -301,15 +298,20 @@ def _trace_stage(ctx, trace, tag="", extra=()):
     import random
     rnd = random.Random(ctx.seed)
     rnd.shuffle(blocks)
-    # one TLC run over a seeded sample of 2000 scenarios (thorough: 2 x 20000)
-    blocks = blocks[:2000] if ctx.tier != "thorough" else blocks[:20000]
+    # one TLC run over a seeded sample of 1500 scenarios (thorough: 2 x 20000)
+    blocks = blocks[:1500] if ctx.tier != "thorough" else blocks[:20000]
     # plus the wildcard family (all of it) and a sample of the anchor /
     # configuration grids
     for k, x in enumerate(extra):
         xb = _blocks(x)
+        if k == 0 and ctx.tier != "thorough":
+            # the wildcard kinds and the replay / denial rewrites; the plain
+            # kinds of that grid are in the main sample
+            xb = [b for b in xb if '"qk":"w' in b[0] or "MisapplyWildcard" in b[0]
+                  or "DenyExisting" in b[0] or "WrongSoa" in b[0] or "OrphanSig" in b[0]]
         if k > 0:
             rnd.shuffle(xb)
-            xb = xb[:400] if ctx.tier != "thorough" else xb
+            xb = xb[:300] if ctx.tier != "thorough" else xb
         blocks = xb + blocks
     per = len(blocks) if ctx.tier != "thorough" else 20000
     nfiles = 0
